@@ -92,7 +92,7 @@ def oracle(case):
         ck = canon.from_las(rk_las)
         d = canon.diff(ck, c1, names=("cycle%d" % k, "cycle1"))
         if d:
-            out.fail("numeric-unit-absorbs-next-token" if numeric_unit(las0) else "drift|%s|%s" % (d[0][0], cause(d, c1, ck, tag)), "cycle %d differs from cycle 1 (opts=%r)\n%s\n%s\n--- text cycle 1 ---\n%s\n--- text cycle %d ---\n%s"
+            out.fail("drift|%s|%s" % (d[0][0], cause(d, c1, ck, tag)), "cycle %d differs from cycle 1 (opts=%r)\n%s\n%s\n--- text cycle 1 ---\n%s\n--- text cycle %d ---\n%s"
                      % (k, opts, canon.show(d), inputs.describe(src)[:400], t1[:2000], k, tk[:2000]))
             return out
         r_prev, t1 = rk_las, tk
@@ -100,7 +100,7 @@ def oracle(case):
 
 
 def numeric_unit(las):
-    """Open finding D34: an item whose unit is purely numeric and is followed by a value on the written line."""
+    """An item whose unit is purely numeric and is followed by a value on the written line (former finding D34, fixed)."""
     for name, sec in las.sections.items():
         if isinstance(sec, str):
             continue
